@@ -194,3 +194,36 @@ Example C09_source_example :
        [IntLang.ARule [1000; 1001; 1002]; IntLang.ARule [1003; 1001; 1002]] =
   (Ok (IntLang.IVB true), [[1003; 1001; 1002]], [AUpdate 0 [1000; 1001; 1002] [1003; 1001; 1002]], [WUpdate]).
 Proof. exact InternalTie.isrc_example. Qed.
+
+(* ---------- the p-rule wrappers of management_enforcer.py, from the source ----------
+   add_named_policy, add_named_policies, remove_named_policy, remove_named_policies, remove_filtered_named_policy regenerated
+   on this run (coq/gen/PolWrapGen.v; their un-named forms compared with the recognised delegations), executed by
+   PolWrapLang's interpreter: each is the corresponding step of Mgmt.step on "p" - state, returned boolean, adapter calls and
+   notifications (the internal methods they call are tied by the C09_source_* theorems above). *)
+From PyCasbin Require PolWrapLang PolWrapTie.
+From PyCasbinGen Require PolWrapGen.
+
+Theorem C09_source_add_named_policy : forall k s r,
+  PolWrapLang.pwrapper k PT_P r [] 0 [] PolWrapGen.add_named_policy_gen s = Some (step k s (OAdd PT_P r)).
+Proof. exact PolWrapTie.tie_p_add. Qed.
+Print Assumptions C09_source_add_named_policy.
+
+Theorem C09_source_add_named_policies : forall k s rs,
+  PolWrapLang.pwrapper k PT_P [] rs 0 [] PolWrapGen.add_named_policies_gen s = Some (step k s (OAddMany PT_P rs)).
+Proof. exact PolWrapTie.tie_p_add_many. Qed.
+Print Assumptions C09_source_add_named_policies.
+
+Theorem C09_source_remove_named_policy : forall k s r,
+  PolWrapLang.pwrapper k PT_P r [] 0 [] PolWrapGen.remove_named_policy_gen s = Some (step k s (ORemove PT_P r)).
+Proof. exact PolWrapTie.tie_p_remove. Qed.
+Print Assumptions C09_source_remove_named_policy.
+
+Theorem C09_source_remove_named_policies : forall k s rs,
+  PolWrapLang.pwrapper k PT_P [] rs 0 [] PolWrapGen.remove_named_policies_gen s = Some (step k s (ORemoveMany PT_P rs)).
+Proof. exact PolWrapTie.tie_p_remove_many. Qed.
+Print Assumptions C09_source_remove_named_policies.
+
+Theorem C09_source_remove_filtered_named_policy : forall k s i vs,
+  PolWrapLang.pwrapper k PT_P [] [] i vs PolWrapGen.remove_filtered_named_policy_gen s = Some (step k s (ORemoveFiltered PT_P i vs)).
+Proof. exact PolWrapTie.tie_p_remove_filtered. Qed.
+Print Assumptions C09_source_remove_filtered_named_policy.
